@@ -11,7 +11,8 @@
    the model from its own observed state, which contains nothing of the other components but untouched arena
    slots) and searched by the direct oracle (Layout(G1+G2) against Layout(G1), Layout(G2)). *)
 From Coq Require Import List Permutation.
-From Autog Require Import Graph Populate Consistent ComponentsProofs Summary.
+From Coq Require Import QArith.
+From Autog Require Import Graph Populate Layout Check Consistent ComponentsProofs Summary Shift.
 Import ListNotations.
 
 Theorem C09_components_partial : forall g, consistent g ->
@@ -51,3 +52,16 @@ Theorem C09_front_end_consistent : forall (A : Type) (eqA : A -> A -> bool),
       consistent (restore_self_loops (fst (ignore_self_loops c)) (snd (ignore_self_loops c))).
 Proof. exact frontend_consistent. Qed.
 Print Assumptions C09_front_end_consistent.
+
+(* side by side: with size-aware positioners the horizontal extents of any two components are disjoint and at
+   least NodeSpacing apart ([comp_ok]: x >= 0 and the last node of every band is its rightmost — what the
+   no-overlap theorems of C04 give) *)
+Theorem C09_components_side_by_side : forall o gs ns es,
+  collect_all o gs 0 = (ns, es) -> (0 <= o_node_spacing o)%Q -> (forall g, In g gs -> comp_ok g) ->
+  ns = concat (map (comp_nodes o gs 0) (seq 0 (length gs))) /\
+  (forall i j a b, (i < j < length gs)%nat ->
+     In a (comp_nodes o gs 0 i) -> In b (comp_nodes o gs 0 j) ->
+     (on_x a + on_w a + o_node_spacing o <= on_x b)%Q) /\
+  (forall a, In a ns -> (0 <= on_x a)%Q).
+Proof. exact collect_all_separated. Qed.
+Print Assumptions C09_components_side_by_side.
